@@ -70,15 +70,15 @@ prop("C21", "exploration",
 
 prop("C25", "exploration",
      "family responder: one real responder with 3-5 workers, peer S whose connection is stalled for good (every write to it blocks; no timeout is allowed to fire: the drain lets at most 20 simulated seconds pass, the send timeout is 10 min) and, in 70% of runs, a memory allowance of about two of its blocks; S has 1-2 requests in flight and keeps sending updates, cancels and new requests; peers X and Y send 2-5 requests whose request hooks accept, send extension data, pause (resumed by an update whose hook unpauses), or reject. family requestor: one real requestor whose sends to responder S stall while it fetches from X and Y. Oracle: every request of X and Y completes with the reference result; on failure the blocked call site of the actor loop is read from the goroutine dump; distinct = distinct trace hash",
-     _b(800, 90, 30000, 1200), probes=["send-stalled-for-good", "c25-S-newreq", "c25-S-update"])
+     _b(800, 90, 30000, 1200), lock_yield_files=["messagequeue/messagequeue.go", "peermanager/peermanager.go", "notifications/publisher.go", "allocator/allocator.go", "responsemanager/responseassembler/responseassembler.go"], probes=["send-stalled-for-good", "c25-S-newreq", "c25-S-update"])
 
 prop("C09", "exploration",
      "real requestor and real genuine responder (complete store) plus a scripted third peer speaking through the real codec that knows the request ID and injects 1-5 responses with any status, random metadata over the DAG's links, genuine or forged blocks and a marker extension, at scheduler-chosen moments of the genuine exchange; the requestor's response hook reacts to the marker (error / update / nothing) as an application would; oracle: no hook call with the third peer as sender, no message to the third peer, no cancel/update sent to the genuine responder, outcome and stored blocks exactly as the C02 reference; distinct = distinct trace hash",
-     _b(1200, 90, 50000, 1200))
+     _b(1200, 90, 50000, 1200), lock_yield_files=["requestmanager/client.go@send"])
 
 prop("C10", "exploration",
      "real responder serving a real requestor A (sometimes paused by a block hook and resumed by the responder's operator) while a scripted second peer T, speaking through the real codec, sends 1-4 cancel / update / new-request messages carrying A's request ID at scheduler-chosen moments (queued, running, paused, completing); oracle: no requestor-cancelled notification, no update hook call (only T sends updates), A receives exactly the C02 reference, completed listener once with a success status, exactly one terminal status on the wire to A; distinct = distinct trace hash",
-     _b(1200, 90, 50000, 1200))
+     _b(1200, 90, 50000, 1200), lock_yield_files=["responsemanager/client.go@send"])
 
 prop("C01", "exploration",
      "real requestor (store = random subset of the DAG, sometimes failing commits, sometimes pausing at a block and resuming) against a scripted adversarial responder that speaks through the real codec: it computes the honest response stream with the reference traversal and applies 0-4 mutations drawn from {swap, drop, duplicate, wrong action, forged bytes, block of an unrelated DAG under the expected CID, invented entry, same bytes under another CID prefix, misplaced DAG block, withheld block}, cuts it into 1-4 entry messages, and varies the terminal status (early, repeated, failure codes), message replay and responses under a foreign request ID; oracle: delivered nodes are an in-order subsequence of the genuine traversal, every commit hashes to its link and carries the genuine bytes, commits are an in-order subsequence of the reference link loads; distinct = distinct trace hash",
